@@ -23,12 +23,14 @@
   (1, 9); the point (1, 2) is in that fill area but not in the stroke area (= the shape). Replayed on
   the real code: `rrect.areas 0 0 3 20 3 20 0 0 0 0 0 0 1 0` -> oracle class
   `C06:rrect-fill-area-not-inside-stroke-area`, and `rrect.styled 0 0 3 20 3 20 0 0 0 0 0 0 7 9 1 0 -8 -8 64 64`
-  -> `C06:rrect-styled-map-ne-areas` at (1, 2) (corpus/C06.ops). The `_partial` theorems state the
+  -> `C06:rrect-styled-map-ne-areas` at (1, 2) (corpus/C06.ops; recorded as a known finding under the
+  class suffix `:confined-radii`, which the oracle uses exactly when `confine` changes the radii of one of the
+  two areas, i.e. outside the guard of `fill_in_stroke_partial_fitting`). The `_partial` theorems state the
   exact guard (`Fits` of both areas) under which the claim does hold. A grid / random search of the
   model (88 200 equal-radius, 540 225 unequal-radius, 400 000 random instances with sizes <= 16 and
   radii <= 30) found no violation; the witness family needs a tall thin shape with an elongated corner.
 
-  -- [V] FillInStroke when `confine` scales the radii of `stroke_area()` or of a non-collapsed `fill_area()` (radii that do not fit their rectangle): FALSE in general (`not_fill_in_stroke_all`, witness replayed on the real code, corpus/C06.ops); where it does hold there it is carried by correspondence + oracle only
+  -- [V] [N] FillInStroke without the `Fits` guard is FALSE (KNOWN FINDING, classes `C06:rrect-fill-area-not-inside-stroke-area:confined-radii` and `C06:rrect-styled-map-ne-areas:confined-radii`; kernel-decided witness `not_fill_in_stroke_all`, replayed on the real code, corpus/C06.ops): when `confine` rescales the radii of `stroke_area()` or of a non-collapsed `fill_area()` the fill area may bulge out of the stroke area and such points are left unpainted; for those shapes the property text is not claimed, every occurrence is reported by the oracle under the known-finding classes, and a failure where `confine` changes neither area keeps the unsuffixed class (it would contradict `fill_in_stroke_partial_fitting`)
 -/
 import EG.Lemmas.GlueRRectNested
 import EG.Props.C06.RoundedRect
